@@ -84,6 +84,7 @@ type Interp struct {
 	inputMeta   map[string]string
 	recoverable **goPanic
 	wrapped     map[*Object]Value // error wrapping side table
+	gzipUnder   map[*Object]Value
 	threads     []*Thread
 	cur         *Thread
 	sched       *Sched
